@@ -8,6 +8,9 @@ Never leaves /repo modified.
 """
 import sys, os, subprocess, json, time
 
+# MUT_REPO: a scratch worktree of /repo to work in (default: /repo itself); the checks are pointed at it through VERIF_REPO
+REPO = os.environ.get("MUT_REPO", "/repo")
+
 def main():
     args = sys.argv[1:]
     d = args[0]
@@ -21,17 +24,17 @@ def main():
         else:
             props.append(args[i]); i += 1
     patch = os.path.join(d, "patch.diff")
-    st = subprocess.run(["git", "-C", "/repo", "status", "--porcelain", "--untracked-files=no"], capture_output=True, text=True).stdout.strip()
+    st = subprocess.run(["git", "-C", REPO, "status", "--porcelain", "--untracked-files=no"], capture_output=True, text=True).stdout.strip()
     if st:
         print("refusing: /repo has local modifications:\n" + st); return 2
-    r = subprocess.run(["git", "-C", "/repo", "apply", "--whitespace=nowarn", patch], capture_output=True, text=True)
+    r = subprocess.run(["git", "-C", REPO, "apply", "--whitespace=nowarn", patch], capture_output=True, text=True)
     if r.returncode != 0:
         print("PATCH-DOES-NOT-APPLY", d, r.stderr.strip()[:300]); return 2
     results = {}
     try:
         for p in props:
             t0 = time.time()
-            env = dict(os.environ, VERIF_SEED=seed, VERIF_TIER=tier)
+            env = dict(os.environ, VERIF_SEED=seed, VERIF_TIER=tier, VERIF_REPO=REPO)
             rr = subprocess.run(["/verif/vcheck", p, "--tier", tier], cwd="/verif", env=env, capture_output=True, text=True)
             viols = [l for l in rr.stdout.splitlines() if l.startswith("VIOLATION")]
             verdict = {0: "MISSED", 1: "CAUGHT"}.get(rr.returncode, "INCONCLUSIVE")
@@ -41,7 +44,7 @@ def main():
             if verdict == "INCONCLUSIVE":
                 print("   " + "\n   ".join((rr.stderr + rr.stdout).splitlines()[-6:]))
     finally:
-        subprocess.run(["git", "-C", "/repo", "checkout", "--", "."], check=True)
+        subprocess.run(["git", "-C", REPO, "checkout", "--", "."], check=True)
     json.dump(results, open(os.path.join(d, "vcheck_result.json"), "w"), indent=1)
     return 0
 
